@@ -239,6 +239,57 @@ def _ap4(f, a, g):
     return f.applyAlongDimensions(TSTEP='max')
 
 
+@op('copy-nodata')
+def _cpnd(f, a, g):
+    return f.copy(data=False)
+
+
+@op('apply-TSTEP-reverse')
+def _ap5(f, a, g):
+    # a callable that keeps the number of steps
+    return f.applyAlongDimensions(TSTEP=lambda x: x[::-1])
+
+
+@op('apply-TSTEP-same-length')
+def _ap6(f, a, g):
+    return f.applyAlongDimensions(TSTEP=lambda x: (x + x[::-1]) / 2)
+
+
+@op('slice-TSTEP-list', lambda ctx, d: {
+    'a': ctx.int('a', -d['TSTEP'], d['TSTEP'] - 1),
+    'b': ctx.int('b', -d['TSTEP'], d['TSTEP'] - 1)})
+def _s8(f, a, g):
+    return f.sliceDimensions(TSTEP=[int(a['a']), int(a['b'])])
+
+
+@op('slice-TSTEP-list3', lambda ctx, d: {
+    'a': ctx.int('a', 0, d['TSTEP'] - 1),
+    'b': ctx.int('b', 0, d['TSTEP'] - 1),
+    'c': ctx.int('c', 0, d['TSTEP'] - 1)})
+def _s8b(f, a, g):
+    return f.sliceDimensions(TSTEP=[int(a['a']), int(a['b']), int(a['c'])])
+
+
+@op('slice-TSTEP-step')
+def _s9(f, a, g):
+    return f.sliceDimensions(TSTEP=slice(None, None, 2))
+
+
+def selected_rows(opname, a, n):
+    """time steps an operation selects (None: not a plain selection)"""
+    if opname == 'slice-TSTEP-list':
+        return [int(a['a']) % n, int(a['b']) % n]
+    if opname == 'slice-TSTEP-list3':
+        return [int(a['a']) % n, int(a['b']) % n, int(a['c']) % n]
+    if opname == 'slice-TSTEP-step':
+        return list(range(n))[::2]
+    if opname == 'slice-TSTEP-int':
+        return [int(a['k']) % n]
+    if opname == 'slice-TSTEP-slice':
+        return list(range(n))[slice(int(a['a']), int(a['b']))]
+    return None
+
+
 @op('eval')
 def _ev(f, a, g):
     return f.eval('NOX = NO2 * 2')
@@ -351,8 +402,26 @@ class Preserve(_Base):
                 return
         finally:
             sys.setprofile(None)
+        skip = ()
+        rows = selected_rows(self.opname, a, self.T)
+        if rows is not None and len(rows) > 1 and \
+                rows != list(range(rows[0], rows[0] + len(rows))):
+            # an irregular selection has no single TSTEP attribute; the
+            # file-level start must still be the first selected flag
+            skip = ()
         for lab, e in coherence(out, True):
-            h.claim(lab, e)
+            if lab not in skip and not getattr(self, 'rows_only', False):
+                h.claim(lab, e)
+        if rows is not None and 'TFLAG' in out.variables:
+            src = f.variables['TFLAG']
+            tf = out.variables['TFLAG']
+            ok = tf.shape[0] == len(rows)
+            h.claim('TFLAG-rows-selected:count', z3.BoolVal(bool(ok)))
+            if ok:
+                for k, r in enumerate(rows):
+                    h.claim('TFLAG-rows-selected[%d]' % k, z3.And(
+                        symx._b(_I(tf[k, 0, 0]) == _I(src[r, 0, 0])),
+                        symx._b(_I(tf[k, 0, 1]) == _I(src[r, 0, 1]))))
         h.observe('dims', dict((k, len(v)) for k, v in
                                out.dimensions.items()))
         h.observe('varlist', getattr(out, 'VAR-LIST', None))
@@ -365,7 +434,7 @@ class Preserve(_Base):
         vals = self._concvals(inputs)
         fn, symargs = OPS[self.opname]
         viol = {}
-        a = dict((k, _g(inputs, k)) for k in ('k', 'a', 'b'))
+        a = dict((k, _g(inputs, k)) for k in ('k', 'a', 'b', 'c'))
         if 'slice' in self.opname and self.opname.endswith('slice'):
             n = self._dims()['COL' if 'COL' in self.opname else 'TSTEP']
             if len(range(n)[slice(a['a'], a['b'])]) == 0:
@@ -384,7 +453,22 @@ class Preserve(_Base):
         except Exception as ex:
             viol['raised:' + type(ex).__name__] = repr(ex)[:200]
             return {'obs': {}, 'violations': viol}
+        rows = selected_rows(self.opname, a, self.T)
+        if rows is not None and 'TFLAG' in out.variables:
+            src = np.asarray(f.variables['TFLAG'][:, 0, :])
+            tf = np.asarray(out.variables['TFLAG'][:, 0, :])
+            if tf.shape[0] != len(rows):
+                viol['TFLAG-rows-selected:count'] = '%d flags for %d ' \
+                    'selected steps' % (tf.shape[0], len(rows))
+            else:
+                for k, r in enumerate(rows):
+                    if tuple(tf[k]) != tuple(src[r]):
+                        viol['TFLAG-rows-selected[%d]' % k] = \
+                            'flag %r, selected step %d has %r' % (
+                                tf[k].tolist(), r, src[r].tolist())
         for lab, e in coherence(out, False):
+            if getattr(self, 'rows_only', False):
+                break
             if not z3.is_true(z3.simplify(e)):
                 viol[lab] = 'incoherent: %s (VAR-LIST=%r NVARS=%r VAR=%r)' % (
                     lab, getattr(out, 'VAR-LIST', None),
@@ -487,6 +571,12 @@ def obligations(tier):
     years = (2004,) if tier == 'quick' else (2003, 2004)
     for yr in years:
         for name in OPS:
+            if name == 'slice-TSTEP-list3':
+                # three symbolic indices: listed by checks/c02.py (row
+                # claims); here only in the thorough tier
+                if tier == 'thorough':
+                    obs.append(Preserve(name, yr, 4))
+                continue
             if name.startswith('slice-LAY-') and name != 'slice-LAY-int':
                 obs.append(Preserve(name, yr, 2, L=4))
                 continue
@@ -497,6 +587,9 @@ def obligations(tier):
             if tier == 'thorough' or name.startswith(('slice-TSTEP',
                                                       'apply-TSTEP')):
                 obs.append(Preserve(name, yr, 3))
+            if name in ('slice-TSTEP-list', 'slice-TSTEP-step',
+                        'slice-TSTEP-list3'):
+                obs.append(Preserve(name, yr, 4))
         for how in BROKEN:
             obs.append(Establish(how, yr))
     return obs
